@@ -49,9 +49,9 @@ def check(ctx):
     MAP = SUB + ".param_mapping"
     S_ = MAP + "@TypeParamMapping::Specified.0"
     REPL = "vec+(for(%s){if(let v1::Some($)=slice::get(P2,elem(%s).1)){(elem(%s).0,slice::get(P2,elem(%s).1)@v1::Some.0)}else{'()'}})" % (S_, S_, S_, S_)
-    PATH = "if(Not(slice::is_empty(%s))){mut[%s.path;substitutes::replace_path_params_recursively(&self,%s,P3)]}else{%s.path}" % (REPL, SUB, REPL, SUB)
+    PATH = "if((let TypeParamMapping::Specified($)=%s&&Not(slice::is_empty(%s)))){mut[%s.path;substitutes::replace_path_params_recursively(&self,%s,P3)]}else{%s.path}" % (MAP, REPL, SUB, REPL, SUB)
     expect_fn(ctx, "C07.3", "same-key/lookup", "TypeSubstitutes::for_path_with_params",
-              "Some(if(let TypeParamMapping::Specified($)=%s){type_path::TypePathType::Path{params:Vec::new(),path:%s}}else{type_path::TypePathType::Path{params:P2,path:%s.path}})" % (MAP, PATH, SUB),
+              "Some(type_path::TypePathType::Path{params:if(let TypeParamMapping::Specified($)=%s){Vec::new()}else{P2},path:%s})" % (MAP, PATH),
               "look-up in the same map with the same key; the rule's own path and mapping are used. PassThrough: substitute path + the resolved arguments unchanged, in order. "
               "Specified: each (ident, idx) is paired with params.get(idx) (identity, no arithmetic), idents replaced inside the substitute path, no extra arguments appended", "scale_typegen")
     fn = q.fn1(P, "TypeSubstitutes::parse_path_param_mapping", "scale_typegen")
